@@ -21,6 +21,22 @@ CHECKS = {
              "exit guarantee; override values range over str/int/bool.",
         technique="Lean 4 proof over a hand-written model + exhaustive differential correspondence (model driver vs real object)",
     ),
+    "C17": dict(
+        category="proof",
+        text="Lean theorems about the model of the WSGI app's path handling with the repaired containment check, for every "
+             "request (unbounded path length, arbitrary characters): GET serves only below the static folder "
+             "(get_contained, from 'no .. substring => no .. segment'), POST serves only below root_path or the configured "
+             "default directory (post_contained, post_escape_refused), refusals have fixed bodies (refusal_reveals_nothing), "
+             "the operating system's own resolution ends at the lexically resolved location on a symlink-free tree "
+             "(os_resolve_lexical, disclosure_is_under_root); witnesses that the original check let '..' and prefix-sibling "
+             "paths through (D22) and listed the parent of the root (D23) + bounded-exhaustive correspondence of the model "
+             "with the real sqllineage.drawing.app on a scratch tree and a model-independent marker oracle",
+        design_ref="DESIGN.md §5 C17",
+        note=TB + ". Assumed: no symbolic links (Path.resolve() = lexical resolution, compared with pathlib on every "
+             "enumerated spelling), POSIX paths, string-valued f/d/e payload members, readable tree.",
+        technique="Lean 4 proof over a hand-written model + exhaustive differential correspondence (model driver vs real "
+                  "WSGI callable, <=4/5 segments over 9 segment kinds x relative/absolute x route x method x 2 root settings)",
+    ),
 }
 
 CHECKS["C03"] = dict(
